@@ -13,6 +13,8 @@ import (
 	"bytes"
 	"crypto/sha256"
 	"fmt"
+	"io"
+	"math/rand/v2"
 	"os"
 	"os/exec"
 	"path/filepath"
@@ -23,6 +25,7 @@ import (
 	"seehuhn.de/go/postscript/afm"
 	"seehuhn.de/go/postscript/type1"
 
+	"verif/harness/mon"
 	"verif/harness/ref"
 	"verif/harness/rt"
 )
@@ -79,6 +82,8 @@ type c17Value struct {
 	// programs whose result shows the order in which forall enumerates a dictionary
 	orderProg string
 	orderCMap []byte
+	// an AFM text in which several glyph names claim the same character code
+	dupAFM []byte
 }
 
 func genC17Value(c *rt.C, quick bool) c17Value {
@@ -147,6 +152,13 @@ func genC17Value(c *rt.C, quick bool) c17Value {
 	v.orderProg = db.String() + []string{"{ } forall", "{ pop } forall", "{ exch pop } forall", "{ pop exit } forall", "{ exch pop dup 3 eq { exit } if } forall"}[rng.IntN(5)]
 	v.orderCMap = []byte("%!PS-Adobe-3.0 Resource-CMap\n/CIDInit /ProcSet findresource begin 12 dict begin begincmap\n/CMapName " + db.String() +
 		"{ pop exit } forall def\n/WMode " + db.String() + "{ exch pop exit } forall def\n1 begincodespacerange <00> <ff> endcodespacerange endcmap\nCMapName currentdict /CMap defineresource pop end end\n")
+	var ab strings.Builder
+	ab.WriteString("StartFontMetrics 4.1\nFontName Dup\nStartCharMetrics 40\n")
+	for i := 0; i < 40; i++ {
+		fmt.Fprintf(&ab, "C %d ; WX %d ; N %s%d ; B 0 0 %d 700 ;\n", 32+rng.IntN(8), 200+i, []string{"g", "space", "nb", "A"}[rng.IntN(4)], i, 100+i)
+	}
+	ab.WriteString("EndCharMetrics\nEndFontMetrics\n")
+	v.dupAFM = []byte(ab.String())
 	// a font file with seac composites, including a composite of a composite
 	mf := genModelFontOpt(rng, true)
 	mf.lay.Container = "pfa"
@@ -191,6 +203,12 @@ func c17Digests(v c17Value) []string {
 		dg.dict(d)
 		out = append(out, fmt.Sprintf("ReadCMap name=%v %s", d["CMapName"], sha([]byte(dg.sb.String()))))
 	}
+	m3, err := afm.Read(bytes.NewReader(v.dupAFM))
+	enc := ""
+	if m3 != nil {
+		enc = strings.Join(m3.Encoding, ",")
+	}
+	out = append(out, fmt.Sprintf("afm.Read/duplicate-codes %s %s err=%v", metricsDigest(m3), sha([]byte(enc)), err))
 	intp := postscript.NewInterpreter()
 	intp.MaxOps = 100000
 	err = intp.ExecuteString(v.orderProg)
@@ -204,6 +222,34 @@ func c17Digests(v c17Value) []string {
 	return out
 }
 
+// c17FailedWrites writes the font and the metrics to writers that fail.
+func c17FailedWrites(v c17Value, rng *rand.Rand, round int) {
+	type wr func(w io.Writer) error
+	var ws []wr
+	for _, fm := range allFormats {
+		fm := fm
+		ws = append(ws, func(w io.Writer) error { return v.font.Write(w, &type1.WriterOptions{Format: fm.f}) })
+	}
+	ws = append(ws, func(w io.Writer) error { _, _, err := v.font.WritePDF(w); return err })
+	ws = append(ws, func(w io.Writer) error { return v.metrics.Write(w) })
+	for _, f := range ws {
+		cw := &mon.FaultWriter{FailCall: -1, FailByte: -1}
+		f(cw)
+		n := cw.Calls
+		if n == 0 {
+			continue
+		}
+		k := n - 1
+		if round%2 == 1 {
+			k = rng.IntN(n)
+		}
+		f(&mon.FaultWriter{FailCall: k, FailByte: -1, Sticky: round%3 == 0})
+		if cw.Bytes > 0 {
+			f(&mon.FaultWriter{FailCall: -1, FailByte: cw.Bytes - 1 - rng.IntN(min(cw.Bytes, 600)), Sticky: true})
+		}
+	}
+}
+
 func runC17(r *rt.Runner) {
 	emit := os.Getenv("VERIF_C17_EMIT") == "1"
 	nVals := r.N(96, 800)
@@ -211,6 +257,7 @@ func runC17(r *rt.Runner) {
 	children := r.N(4, 10)
 	for k := 0; k < nVals; k++ {
 		r.Case("value", func(c *rt.C) {
+			rng := c.Rand()
 			v := genC17Value(c, r.Quick())
 			ref0 := c17Digests(v)
 			if emit {
@@ -224,6 +271,9 @@ func runC17(r *rt.Runner) {
 			})
 			// in-process repeats
 			for i := 0; i < repeats; i++ {
+				// writes that fail at some call (every other round: at the very
+				// last one) must not influence what later writes produce
+				c17FailedWrites(v, rng, i)
 				got := c17Digests(v)
 				c.Eval()
 				for j := range ref0 {
